@@ -244,6 +244,48 @@ def core_csv(c1, c2, c3):
     return True, {{}}
 
 
+NUMS = [0, 12, -3, 1.5, 1000000, 0.001, -2.5e-07, 1e+21]
+DTS = [datetime.datetime(2024, 1, 5), datetime.datetime(2024, 2, 29, 13, 14, 15), datetime.datetime(1999, 12, 31, 23, 59, 59, 123000)]
+STRS = ['abc', 'x,y', 'he said "hi"', 'a b', "it's", 'ä', 'line1 line2', '#x']
+
+
+def core_csvtable(n1, d1, s1, b1, b2, nul):
+    n2 = d2 = s2 = 0
+    for j in range(8):
+        if n1 == j:
+            n2 = (j + 3) % 8
+        if s1 == j:
+            s2 = (j + 5) % 8
+    for j in range(3):
+        if d1 == j:
+            d2 = (j + 1) % 3
+    # a typed table (number, boolean, datetime, string columns, optional nulls) written as CSV (RFC 4180 quoting) and read back
+    from bare_script.value import value_string
+    rows = [{{'num': _pick(NUMS, n1), 'flag': b1, 'when': _pick(DTS, d1), 'text': _pick(STRS, s1)}},
+            {{'num': _pick(NUMS, n2), 'flag': b2, 'when': _pick(DTS, d2), 'text': _pick(STRS, s2)}}]
+    cols = ['num', 'flag', 'when', 'text']
+    if nul > 0:
+        rows[1][cols[nul - 1]] = None
+
+    def cell(v):
+        if v is None:
+            return 'null'
+        t = value_string(v)
+        return '"' + t.replace('"', '""') + '"' if (',' in t or '"' in t) else t
+    text = ','.join(cols) + chr(10) + chr(10).join(','.join(cell(r[c]) for c in cols) for r in rows) + chr(10)
+    got, log = _call('dataParseCSV', [text])
+    info = {{'csv': text, 'result': repr(got)[:400], 'log': log[:2]}}
+    if not isinstance(got, list) or len(got) != 2:
+        info['clause'] = 'typed table written as CSV does not parse'
+        return False, info
+    for want, row in zip(rows, got):
+        for c in cols:
+            if not same(row.get(c), want[c]):
+                info.update(clause='typed value does not survive the CSV round trip', column=c, value=repr(row.get(c)), expected=repr(want[c]))
+                return False, info
+    return True, {{}}
+
+
 def _kind(c):
     import re
     if c in ('', 'null'):
@@ -333,12 +375,16 @@ def plan(tier, seed, workdir):
     for c2 in (0, 4, 7, 12):
         tasks.append((f'csv_{c2}', 'c1: int, c3: int', ['0 <= c1 < 22', '0 <= c3 < 22' if tier == 'thorough' else '0 <= c3 < 10'],
                       f'core_csv(c1, {c2}, _C3[c3] if {tier == "quick"!r} else c3)'))
+    tasks.append(('csvtable', 'n1: int, d1: int, s1: int, b1: bool, b2: bool, nul: int',
+                  ['0 <= n1 < 8', '0 <= d1 < 3', '0 <= s1 < 8', '0 <= nul <= 4'], 'core_csvtable(n1, d1, s1, b1, b2, nul)'))
     body = CORE.format()
     for name, params, pre, call in tasks:
         body += hgen.harness(name, params, pre, core_call=call)
     path = hgen.write_module(workdir, 'c19_data', body)
     def domain(name, params):
         # finite index domains (symbolic ints of sort/filter stay out: those conditions are genuinely unbounded)
+        if name == 'csvtable':
+            return {'n1': list(range(8)), 'd1': [0, 1, 2], 's1': list(range(8)), 'b1': [False, True], 'b2': [False, True], 'nul': [0, 1, 2, 3, 4]}
         if name.startswith(('sort_', 'filter_')):
             return None
         n = int(name.split('_n')[1][0]) if '_n' in name else 2
